@@ -1,6 +1,7 @@
 import AllfedModel.Model.PhysSpec
 import AllfedModel.Model.Report
 import AllfedModel.Model.Rounds
+import AllfedModel.Model.Perturb
 import Std.Data.HashMap
 import Driver.Wire
 open Wire Allfed.LP Allfed.AllocLP Allfed.PhysSpec
@@ -156,7 +157,15 @@ def totalsOp : P String := do
   let ms := List.range i.nmonths
   pure (outFs (ms.map (feedTotal i x)) ++ " " ++ outFs (ms.map (biofuelTotal i x)))
 
+/-- lp.rows_scaled k <kind> <inp> → rows of buildLP (scaleInp k inp) -/
+def rowsScaledOp : P String := do
+  let k ← float
+  let kd ← kindP
+  let i ← inpP
+  let rows := buildLP (Allfed.Perturb.scaleInp k i) kd
+  pure (" ".intercalate (toString rows.length :: rows.map rowStr))
+
 def ops : List (String × P String) :=
-  [("rounds.rel", relOp), ("rounds.demand", demandOp), ("rounds.totals", totalsOp), ("lp.rows", rowsOp), ("lp.floor", floorOp), ("lp.check", checkOp), ("report.series", reportOp), ("report.split", splitOp)]
+  [("lp.rows_scaled", rowsScaledOp), ("rounds.rel", relOp), ("rounds.demand", demandOp), ("rounds.totals", totalsOp), ("lp.rows", rowsOp), ("lp.floor", floorOp), ("lp.check", checkOp), ("report.series", reportOp), ("report.split", splitOp)]
 
 end Ops.LP
